@@ -77,8 +77,12 @@ RatMean(q) ==
                 term(i) == IF i \in def THEN q[i][1] * (l \div q[i][2]) ELSE 0
             IN Norm(term(1) + term(2) + term(3) + term(4), l * k)
 \* mean of four stored integers, either integer neighbour of the exact mean (Int, Colour)
-IntMean(q) == <<(q[1][1] + q[2][1] + q[3][1] + q[4][1]) \div 4,
-                (q[1][2] + q[2][2] + q[3][2] + q[4][2] + 3) \div 4>>
+\* (floor and ceiling of sum/4 written so that no intermediate exceeds the largest member: TLC integers are 32-bit
+\* and int32 pixels go up to 2^31 - 1)
+IntMean(q) == <<(q[1][1] \div 4) + (q[2][1] \div 4) + (q[3][1] \div 4) + (q[4][1] \div 4)
+                  + ((q[1][1] % 4) + (q[2][1] % 4) + (q[3][1] % 4) + (q[4][1] % 4)) \div 4,
+                (q[1][2] \div 4) + (q[2][2] \div 4) + (q[3][2] \div 4) + (q[4][2] \div 4)
+                  + ((q[1][2] % 4) + (q[2][2] % 4) + (q[3][2] % 4) + (q[4][2] % 4) + 3) \div 4>>
 ReducePair(mode, q) == IF mode = "Float" THEN RatMean(q) ELSE IntMean(q)
 ReducePx(mode, p1, p2, p3, p4) == [ch \in 1..NCh(mode) |-> ReducePair(mode, <<p1[ch], p2[ch], p3[ch], p4[ch]>>)]
 
@@ -145,7 +149,10 @@ DisplayMosaic(mode, kids) ==
 \* c.mode      mode class
 \* c.bottomup  the format stores rows bottom-up (fits)
 \* c.ranged    the format records a data range (fits)
-\* c.leaves    function: subset of Level(Depth) -> T x T matrix (display orientation) of leaf pixel values
+\* c.leaves    function: subset of Level(Depth) -> T x T matrix (display orientation) of leaf pixel values: the
+\*             FINAL contents of the leaf files.  However many times toasty wrote or updated a leaf before the
+\*             cascade, its stored tile and recorded range are a function of these final pixels alone (LeafTile,
+\*             LeafRange0, LeafRangeRule); the harness writes some leaves twice (write, then update_image)
 \* c.keepu     TRUE: an entirely undefined leaf is nevertheless present as a file (written by a foreign tool,
 \*             no range recorded); FALSE: leaves are written by toasty, which does not store such a tile
 \* c.live      the leaves the walk treats as live (all of them without a tile filter); includes every stored leaf
